@@ -352,8 +352,34 @@ package git
 //@   ensures result0 ==> st_reached && st1 != nil
 //@   ensures st_reached && st1 == nil ==> !result0 && result1 == nil
 
+// Which git: the executable named "git" that safeexec finds in PATH (never one
+// in the current directory, i.e. in a hostile work tree), as an absolute path,
+// looked up once. Every child process of a Repository runs that executable
+// (GitCommand: Args[0] == repo.gitBin), and so does the discovery of the git
+// directory.
+//@ func findGitBin$1
+//@   modifies gitBinMemo.gitBin, gitBinMemo.err
+//@   call 0 safeexec.LookPath as lp
+//@   call 0 safeexec.LookPath assert arg_0 == "git"
+//@   call 0 filepath.Abs as ab
+//@   call 0 filepath.Abs assert lp1 == nil && same(arg_0, lp0)
+//@   ensures lp1 != nil ==> gitBinMemo.err == lp1 && same(gitBinMemo.gitBin, old(gitBinMemo.gitBin))
+//@   ensures lp1 == nil ==> ab_reached
+//@   ensures lp1 == nil && ab1 != nil ==> gitBinMemo.err == ab1 && same(gitBinMemo.gitBin, old(gitBinMemo.gitBin))
+//@   ensures lp1 == nil && ab1 == nil ==> same(gitBinMemo.gitBin, ab0) && gitBinMemo.err == old(gitBinMemo.err)
+
+// the memo is filled through sync.Once (A-STD-FRAME does not see the closure
+// run: that Do runs findGitBin$1 at most once is sync's contract); what is
+// returned is the memo, nothing else
+//@ func findGitBin
+//@   modifies gitBinMemo.gitBin, gitBinMemo.err
+//@   call 0 Once).Do as once
+//@   ensures once_reached && same(result0, gitBinMemo.gitBin) && result1 == gitBinMemo.err
+
 //@ func NewRepositoryFromGitDir
-//@   pure
+//@   modifies gitBinMemo.gitBin, gitBinMemo.err
+//@   call 0 findGitBin as fb
+//@   ensures result1 == nil ==> fb1 == nil && same(result0.gitBin, fb0)
 //@   call 0 IsFull as full
 //@   ensures result1 == nil ==> result0 != nil && full_reached && full0 && full1 == nil
 //@   ensures result1 == nil ==> result0.gitDir == gitDir
@@ -457,12 +483,20 @@ package git
 //@ property C01: (*Repository).NewObjectIter (*Repository).NewBatchObjectIter (*Repository).NewReferenceIter
 //@ property C03: (*Repository).NewObjectIter
 //@ property C09: (*Repository).NewObjectIter (*Repository).NewBatchObjectIter structural/no-map-iteration
+//@ property C01: (OID).String
+//@ property C08: (OID).String
 
 // oidHexK(o): the content key of the 40-digit hex form of an object id; it is
-// by definition what OID.String returns (hex.EncodeToString is A-STD-CONV).
+// by definition what hex.EncodeToString makes of the id's 20 bytes
+// (A-STD-CONV); that OID.String hands exactly those 20 bytes to it, and returns
+// what it gets, is proved.
 //@ spec oidHexK(o OID) Key
-//@ assumed func (OID).String
+//@ assumed func encoding/hex:EncodeToString
 //@   trust A-STD-CONV
+//@   pure
+//@   ensures len(result) == len(src) * 2
+//@   ensures len(src) == 20 ==> keyof(result) == oidHexK(oidat(src, 0))
+//@ func (OID).String
 //@   pure
 //@   ensures keyof(result) == oidHexK(oid) && len(result) == 40
 
@@ -583,8 +617,9 @@ package git
 //@   ensures abs ==> same(result, relPath)
 //@   ensures !abs ==> joined_reached && same(result, joined)
 //@ func NewRepositoryFromPath
-//@   pure
-//@   call 0 exec.Command assert len(arg_1) == 4 && arg_1[0] == "-C" && same(arg_1[1], path) && arg_1[2] == "rev-parse" && arg_1[3] == "--git-dir"
+//@   modifies gitBinMemo.gitBin, gitBinMemo.err
+//@   call 0 findGitBin as fb
+//@   call 0 exec.Command assert fb1 == nil && same(arg_0, fb0) && len(arg_1) == 4 && arg_1[0] == "-C" && same(arg_1[1], path) && arg_1[2] == "rev-parse" && arg_1[3] == "--git-dir"
 //@   call 0 Cmd).Output as out
 //@   call 0 bytes.TrimSpace assert same(arg_0, out0)
 //@   call 0 smartJoin assert same(arg_0, path)
@@ -592,7 +627,7 @@ package git
 //@   ensures out_reached && out1 != nil ==> result1 != nil && result0 == nil
 //@   ensures result1 == nil ==> made_reached && result0 == made0 && made1 == nil
 
-//@ property C13: smartJoin NewRepositoryFromPath
+//@ property C13: smartJoin NewRepositoryFromPath NewRepositoryFromGitDir findGitBin findGitBin$1
 
 //@ property C14: (*Repository).ConfigStringDefault (*Repository).ConfigBoolDefault (*Repository).ConfigIntDefault
 //@ property C10: (*Repository).ConfigStringDefault@only-unset (*Repository).ConfigBoolDefault@only-unset (*Repository).ConfigIntDefault@only-unset
